@@ -139,6 +139,25 @@ def floo_pkg_names():
     return enums, structs, funcs, params
 
 
+def helper_body(name):
+    """the statements of a floo_pkg helper function the hardware model relies on (Hw.v: the roles of an interface are
+    what set_ports(ChimneyDefaultCfg, en_sbr, en_mgr) sets), with its formal arguments renamed to a1, a2, ...;
+    fail-closed on anything but a flat list of statements"""
+    t = strip_comments(open(os.path.join(common.REPO, "hw", "floo_pkg.sv")).read())
+    m = re.search(r"function\s+automatic\s+[^;(]*?\b" + re.escape(name) + r"\s*\(([^)]*)\)\s*;(.*?)\bendfunction", t, re.S)
+    if not m:
+        raise RuntimeError(f"floo_pkg.sv: helper function {name} not found")
+    args = [re.findall(r"[A-Za-z_][A-Za-z0-9_]*", a)[-1] for a in m.group(1).split(",") if a.strip()]
+    body = m.group(2)
+    if re.search(r"\b(if|else|case|for|while|begin|\?)\b|\?", body):
+        body = "CONTROL-FLOW " + body
+    stmts = [re.sub(r"\s+", " ", x).strip() for x in body.split(";")]
+    stmts = [x for x in stmts if x]
+    for i, a in enumerate(args):
+        stmts = [re.sub(r"\b" + re.escape(a) + r"\b", f"a{i + 1}", x) for x in stmts]
+    return stmts
+
+
 def py_algorithms():
     """every routing algorithm floogen knows by name (members of RouteAlgo): each is tried, so that an
     algorithm the generator starts to accept is held against what floo_pkg offers"""
@@ -303,6 +322,8 @@ def generate_facts():
     L.append("Definition pkg_structs : list (string * list string) := [" + "; ".join(f"({q(k)}, {ql(v)})" for k, v in sorted(structs.items())) + "].")
     L.append("Definition pkg_functions : list (string * Z) := [" + "; ".join(f"({q(k)}, {v})" for k, v in sorted(funcs.items())) + "].")
     L.append("Definition pkg_params : list string := " + ql(sorted(params)) + ".")
+    L.append("(* the statements of set_ports(a1, a2, a3) in floo_pkg.sv: the meaning of the role enables the generator emits *)")
+    L.append("Definition set_ports_body : list string := " + ql(helper_body("set_ports")) + ".")
     L.append("Definition py_directions : list (string * Z) := [" + "; ".join(f"({q(a)}, {b})" for a, b in pydirs) + "].")
     # deduplicate instantiation shapes: (module, params, conns) with one origin each
     seen = {}
